@@ -40,7 +40,10 @@ pub fn run(ctx: &Ctx, out: &mut Out) {
         let (text, ex, _gr) = blanket_program(&mut rng);
         jobs.push((text, ex));
     }
-    for (text, goals) in jobs {
+    for (jidx, (text, goals)) in jobs.into_iter().enumerate() {
+        if !ctx.mine(jidx) {
+            continue;
+        }
         let (_d, program) = match lower_program(&text, chalk_integration::SolverChoice::slg_default()) {
             Ok(x) => x,
             Err(_) => {
@@ -60,13 +63,17 @@ pub fn run(ctx: &Ctx, out: &mut Out) {
                 }
             };
             let peeled = peel(&goal);
+            if !ctx.inflight(&format!("{} | goal {{ {} }}", text.replace('\n', " | "), gtext)) {
+                out.count("skipped_crashed_earlier");
+                continue;
+            }
             let db = ChalkDatabase::with(&text, chalk_integration::SolverChoice::slg_default());
             let mut solver: SLGSolver<ChalkIr> = SLGSolver::new(10, None);
             // callback policy: continue for `limit` calls
             let limit = 8usize;
             let mut seen: Vec<(String, Option<Canonical<ConstrainedSubst<ChalkIr>>>, bool)> = vec![];
             let q = peeled.clone();
-            let finished = catch(std::panic::AssertUnwindSafe(|| {
+            let finished = with_default_budgets(|| catch(std::panic::AssertUnwindSafe(|| {
                 solver.solve_multiple(&db, &q, &mut |r, more| {
                     let (k, c) = match r {
                         SubstitutionResult::Definite(c) => ("definite", Some(c)),
@@ -76,7 +83,7 @@ pub fn run(ctx: &Ctx, out: &mut Out) {
                     seen.push((k.to_string(), c, more));
                     seen.len() < limit
                 })
-            }));
+            })));
             let label = format!("{} | goal {{ {} }}", text.replace('\n', " | "), gtext);
             let finished = match finished {
                 Ok(f) => f,
